@@ -3,6 +3,7 @@
 //! prints for the Lean model).
 //!
 //! usage: rxharness < cases.txt > impl.out
+mod ascript;
 mod locktrace;
 mod pipe;
 mod sexp;
